@@ -198,6 +198,98 @@ def acceptor_lemma(sym, tier):
     return r
 
 
+
+# ------------------------------------------------------------------ Multi-Paxos / Flexible Paxos: leader change
+def _tag(cmd):
+    return cmd.get("value") if isinstance(cmd, dict) else cmd
+
+
+def log_paxos_takeover(sym, tier):
+    """Three MultiPaxosNode / FlexiblePaxosNode replicas, messages pumped between the real handlers over a
+    solver-chosen set of working links: leader A gets command x accepted and committed for slot 1 with one
+    quorum; then another node N runs phase 1 with a higher ballot over a (possibly different) quorum and
+    gets its own command y through.  Every slot that is committed anywhere holds the same command
+    everywhere it is committed, and the state machines apply the same commands in the same order."""
+    from happysimulator.components.consensus.flexible_paxos import FlexiblePaxosNode
+    from happysimulator.components.consensus.multi_paxos import MultiPaxosNode
+    r = Result()
+    proto = sym.choice("protocol", 2)
+    cls = [MultiPaxosNode, FlexiblePaxosNode][proto]
+    net = Network(name="net")
+    clock = Clock(Instant(0))
+    net.set_clock(clock)
+    kw = {"phase1_quorum": 2, "phase2_quorum": 2} if proto == 1 else {}
+    nodes = {n: cls(n, net, **kw) for n in ("a", "b", "c")}
+    for nd in nodes.values():
+        nd.set_peers(list(nodes.values()))
+        nd.set_clock(clock)
+    promises_with_x = []
+
+    def pump(first, links):
+        queue = list(first or [])
+        steps = 0
+        while queue and steps < 200:
+            steps += 1
+            e = queue.pop(0)
+            md = e.context.get("metadata", {})
+            dst, src = md.get("destination"), md.get("source")
+            if dst is None:
+                continue                      # timers are fired explicitly
+            if (src, dst) not in links:
+                continue                      # message lost on a broken link
+            if e.event_type.endswith("Promise") and any(_tag(x.get("command")) == "x" for x in md.get("log_entries", [])):
+                promises_with_x.append(dst)
+            out = nodes[dst].handle_event(e)
+            queue.extend(out or [])
+
+    def both(x, ys):
+        return {(x, y) for y in ys} | {(y, x) for y in ys}
+
+    # ---- first leader
+    q1 = [["b"], ["c"], ["b", "c"]][sym.choice("first_quorum_peers", 3)]
+    fx = nodes["a"].submit({"op": "set", "key": "k", "value": "x"})
+    pump(nodes["a"].start(), both("a", q1))
+    a_committed = nodes["a"]._log.commit_index >= 1
+    if a_committed:
+        r.wit.add("first_leader_committed")
+    # ---- second leader, higher ballot, its own quorum
+    n2 = ["b", "c"][sym.choice("second_leader", 2)]
+    others = [n for n in ("a", "b", "c") if n != n2]
+    q2 = [[others[0]], [others[1]], others][sym.choice("second_quorum_peers", 3)]
+    fy = nodes[n2].submit({"op": "set", "key": "k", "value": "y"})
+    pump(nodes[n2].start(), both(n2, q2))
+    if nodes[n2]._log.commit_index >= 1 and nodes[n2].is_leader:
+        r.wit.add("second_leader_committed")
+    committed = {}
+    for nm, nd in nodes.items():
+        for i in range(1, nd._log.commit_index + 1):
+            ent = nd._log.get(i)
+            committed.setdefault(i, {})[nm] = _tag(ent.command) if ent is not None else None
+    for slot, by in committed.items():
+        if len(set(by.values())) > 1:
+            r.bad("one_value_per_instance", {"slot": slot, "committed": by, "protocol": cls.__name__, "first_quorum": ["a"] + q1, "second_leader": n2,
+                                             "second_quorum": [n2] + q2, "promise_reported_x_to": promises_with_x,
+                                             "second_leader_slot1": (_tag(nodes[n2]._log.get(1).command) if nodes[n2]._log.get(1) else None)})
+    r.obs = {"committed": {str(k): v for k, v in committed.items()}, "protocol": cls.__name__}
+    return r
+
+
+def takeover_classify(clause, draws, obs):
+    """Known finding: a new Multi-/Flexible-Paxos leader ignores the accepted log entries reported in the
+    promises of its phase-1 quorum and proposes its own command for a slot that may already be chosen.
+    Recognised only when a promise did report x to the second leader and its slot 1 is nevertheless not x."""
+    import json
+    if not clause.startswith("one_value_per_instance"):
+        return None
+    try:
+        d = json.loads(clause.split(": ", 1)[1])
+    except Exception:
+        return None
+    if d["second_leader"] in d["promise_reported_x_to"] and d["second_leader_slot1"] != "x" and d["slot"] == 1:
+        return "new-leader-ignores-entries-reported-in-promises"
+    return None
+
+
 # ------------------------------------------------------------------ distributed lock
 def lock_script(sym, tier):
     """Script of acquire / release / lease-expiry on one lock by 3 clients: at most one holder, every
@@ -274,6 +366,12 @@ HARNESSES = [
       require=lambda tier: ["accepted", "promised_with_accepted_value"], classify=classify,
       functions=["PaxosNode._handle_prepare", "PaxosNode._handle_accept"],
       bounds=lambda tier: {"pre-state": "symbolic promised/accepted ballots", "messages": "2 Prepare/Accept with symbolic ballots from either peer"}),
+    H(name="c12_log_paxos_takeover", fn=log_paxos_takeover, shape="S", budget=lambda tier: 600.0,
+      cubes=lambda tier: [{"protocol": a, "second_leader": b} for a in range(2) for b in range(2)],
+      require=lambda tier: ["first_leader_committed", "second_leader_committed"], classify=takeover_classify,
+      functions=["MultiPaxosNode / FlexiblePaxosNode: submit/start/_begin_phase1/_handle_prepare/_handle_promise/_become_leader/_replicate_slot/_handle_accept/_handle_accepted"],
+      bounds=lambda tier: {"replicas": 3, "leaders": "a, then b or c with a higher ballot", "quorums": "each leader reaches one or both of the other replicas (solver-chosen)", "commands": "one per leader, submitted before it starts phase 1"},
+      outside=["heartbeat-driven lease expiry", "more than two leader changes", "Flexible Paxos with asymmetric quorum sizes", "LeaderElection"]),
     H(name="c12_lock_script", fn=lock_script, shape="S", budget=lambda tier: 900.0,
       cubes=lambda tier: [{"op1": a, "op2": b} for a in range(3) for b in range(3)],
       require=lambda tier: ["two_grants", "lease_expired"], classify=classify,
